@@ -5,6 +5,7 @@ import (
 	"os"
 	"sync"
 	"sync/atomic"
+	"time"
 
 	"github.com/go-git/go-billy/v5/osfs"
 
@@ -42,7 +43,7 @@ func concOne(impl string, c lamport.Clock, incrementers, witnesses, step int) Co
 	}
 	var floor uint64 // largest value whose Witness has returned
 	var stop int32
-	var stale, dup int64
+	var stale, dup, incs int64
 	times := make([][]lamport.Time, incrementers)
 	var wg sync.WaitGroup
 	for g := 0; g < incrementers; g++ {
@@ -64,10 +65,13 @@ func concOne(impl string, c lamport.Clock, incrementers, witnesses, step int) Co
 				}
 				last = t
 				times[g] = append(times[g], t)
+				atomic.AddInt64(&incs, 1)
 			}
 		}(g)
 	}
-	for k := 0; k < witnesses; k++ {
+	// the witnesses go on until the incrementers have had their share too (on a busy machine they may be slow to start)
+	began := time.Now()
+	for k := 0; k < witnesses || (atomic.LoadInt64(&incs) < 2000 && time.Since(began) < 30*time.Second); k++ {
 		v := c.Time() + lamport.Time(step)
 		hx.Must(c.Witness(v))
 		if t := c.Time(); t < v {
